@@ -626,24 +626,28 @@ __strfd_card(
 			buf, bsz, c, 2 - (s.pad == DT_SPPAD_OMIT), padchar(s));
 		break;
 	}
-	case DT_SPFL_S_WDAY:
+	case DT_SPFL_S_WDAY: {
+		unsigned int w;
+
 		/* get the weekday in ymd mode!! */
 		d->w = d->w ? (dt_dow_t)d->w : dt_get_wday(that);
+		/* ymcw dates count weekdays like %w does, their 0 is Sunday */
+		w = d->w ?: that.typ == DT_YMCW ? DT_SUNDAY : DT_MIRACLEDAY;
 		switch (s.abbr) {
 		case DT_SPMOD_NORM:
 			res = arritostr(
-				buf, bsz, d->w,
+				buf, bsz, w,
 				duf_abbr_wday, dut_nabbr_wday);
 			break;
 		case DT_SPMOD_LONG:
 			res = arritostr(
-				buf, bsz, d->w,
+				buf, bsz, w,
 				duf_long_wday, dut_nlong_wday);
 			break;
 		case DT_SPMOD_ABBR:
 			/* super abbrev'd wday */
-			if (d->w < dut_nabab_wday) {
-				buf[res++] = dut_abab_wday[d->w];
+			if (w < dut_nabab_wday) {
+				buf[res++] = dut_abab_wday[w];
 			}
 			break;
 		case DT_SPMOD_ILL:
@@ -651,6 +655,7 @@ __strfd_card(
 			break;
 		}
 		break;
+	}
 	case DT_SPFL_S_MON:
 		if (UNLIKELY(!d->m && (!d->d || d->flags.d_dcnt_p))) {
 			__strfd_get_md(d, that);
